@@ -22,6 +22,7 @@ import (
 	"path/filepath"
 	"sort"
 	"strings"
+	"syscall"
 	"testing"
 	"time"
 
@@ -46,6 +47,7 @@ type c13Step struct {
 
 type c13Scenario struct {
 	ID     int             `json:"id"`
+	Nofile uint64          `json:"nofile"` // if > 0: soft RLIMIT_NOFILE while the handlers of this scenario run
 	Config json.RawMessage `json:"config"`
 	Steps  []c13Step       `json:"steps"`
 }
@@ -151,7 +153,21 @@ type c13Resp struct {
 	hang  bool
 }
 
+// c13Nofile is the soft limit on open files under which the next handler call
+// runs (0: unchanged).  The property quantifies over any number of reports per
+// day; a server process has a bounded number of descriptors, and merging a day
+// must not need more of them the more reports there are.
+var c13Nofile uint64
+
 func c13Call(fn func(w *httptest.ResponseRecorder)) c13Resp {
+	if c13Nofile > 0 {
+		var old syscall.Rlimit
+		if err := syscall.Getrlimit(syscall.RLIMIT_NOFILE, &old); err == nil && old.Cur > c13Nofile {
+			if err := syscall.Setrlimit(syscall.RLIMIT_NOFILE, &syscall.Rlimit{Cur: c13Nofile, Max: old.Max}); err == nil {
+				defer syscall.Setrlimit(syscall.RLIMIT_NOFILE, &old)
+			}
+		}
+	}
 	done := make(chan c13Resp, 1)
 	go func() {
 		var res c13Resp
@@ -230,6 +246,7 @@ func TestVerifC13(t *testing.T) {
 		if err != nil {
 			t.Fatal(err)
 		}
+		c13Nofile = sc.Nofile
 		stored := map[string]map[string]int{} // day -> object name -> body index
 		ever := map[string]map[int]bool{}     // day -> body indices ever stored
 		dead := false
@@ -361,6 +378,7 @@ func TestVerifC13(t *testing.T) {
 			}
 			rt.Out(rec)
 		}
+		c13Nofile = 0
 		os.RemoveAll(w.dir)
 	}
 	rt.Out(rt.M{"kind": "summary", "scenarios": len(in.Scenarios), "steps": nsteps})
